@@ -147,7 +147,7 @@ func C13(e *core.Env) {
 		msgs := map[string]string{}
 		for i := start; i < end; i++ {
 			s := strs[i]
-			n1 := s          // the string as validation name, plain message
+			n1 := s                     // the string as validation name, plain message
 			n2 := fmt.Sprintf("m%d", i) // plain name, the string as message
 			for _, n := range []string{n1, n2} {
 				lv.WriteString("  - " + yq(n) + "\n")
